@@ -121,12 +121,16 @@ def _as_list(spec):
     return spec if isinstance(spec, list) else [spec]
 
 
-@contract('serif.table.Table._validate_key_tuple_hashable', props=[])
+@contract('serif.table.Table._validate_key_tuple_hashable', props=['C09', 'C10'])
 class validate_key_tuple_hashable:
-    params = {'key_tuple': 'opaque', 'key_cols': 'opaque', 'row_idx': 'int'}
-    trusted = True
+    """A pure check: returns None or raises SerifTypeError (never anything else), for key tuples of
+    one or two components."""
+    params = {'key_tuple': 'alt:tupleof:1:any|tupleof:2:any', 'key_cols': 'alt:listof:1:dvector|listof:2:dvector', 'row_idx': 'int'}
     from serif.errors import SerifTypeError as _T
     may_raise = [_T]
+
+    def ensures(result):
+        return result is None
 
 
 def _row_key(cols, e):
